@@ -284,12 +284,22 @@ impl<SP: StorageProvider, PS: PolicyStore> Transaction<SP, PS> {
         // Try to run command, or revert if failed.
         sink.begin();
         let checkpoint = perspective.checkpoint();
-        if let Err(e) = policy.call_rule(
+        // The store can still refuse the command after its rule has run (e.g. a
+        // parent address with the right id but the wrong max_cut), so that is
+        // undone like a policy rejection.
+        let result = match policy.call_rule(
             command,
             perspective,
             sink,
             CommandPlacement::OnGraphAtOrigin,
         ) {
+            Ok(()) => perspective
+                .add_command(command)
+                .map(|_| ())
+                .map_err(ClientError::from),
+            Err(e) => Err(e.into()),
+        };
+        if let Err(e) = result {
             perspective.revert(checkpoint)?;
             sink.rollback();
             if !perspective.includes(parent.id) {
@@ -299,9 +309,8 @@ impl<SP: StorageProvider, PS: PolicyStore> Transaction<SP, PS> {
                 self.perspective = None;
                 self.phead = None;
             }
-            return Err(e.into());
+            return Err(e);
         }
-        perspective.add_command(command)?;
         sink.commit();
 
         // `parent` now has a descendant in this transaction.
